@@ -283,6 +283,10 @@ func vf10Deadlines(n *wire.Net, s wire.Side, setupOK bool) string {
 			first = &dls[i]
 		}
 		last = &dls[i]
+		// "armed when they start": input that trickles in does not push the timeout back
+		if !first.T.IsZero() && !dls[i].T.IsZero() && dls[i].T.After(first.T.Add(2*time.Millisecond)) {
+			return fmt.Sprintf("VIOL[c10-obfs2-deadline-slides]: the handshake started under the read deadline %s; after %d reads the deadline was moved to %s (%v later): every piece of input pushes the timeout back", first.T.Format("15:04:05.000000"), dls[i].ReadsBefore, dls[i].T.Format("15:04:05.000000"), dls[i].T.Sub(first.T))
+		}
 	}
 	if n.Reads(s) > 0 {
 		if first == nil || first.T.IsZero() || first.ReadsBefore != 0 || !first.T.After(first.At) {
@@ -610,7 +614,7 @@ func vf10Normalize(cs *vf10Case) {
 
 func TestVerifC10Obfs2Bytes(t *testing.T) {
 	c := ev.For(vf10Prop())
-	c.Rule("obfs2-bytes: real client (Dial) or server (WrapConn) against a scripted peer over the gated wire: input shapes random / shorter than the header / valid key-establishment message then garbage up to 1 MiB / valid prefix cut at every kind of offset / wrong magic (single bit, random) / PADLEN 8193..2^32-1 / maximum padding then garbage / fewer padding bytes than announced / zeros / two handshakes; chunk plans (1..65536, all), wire read caps, real-side padding steered; application writes; ending EOF / read error at an offset / fired handshake deadline / write error at an offset of the real side's output; oracle: no panic, every call returns once the ending is delivered (quiescence; wedge only after 20 s + 60 s), largest handshake read request <= 16392 bytes, injected write errors are returned, deadline armed before the first Read and cleared after success, fired deadline ends the handshake with an error; non-trivial = the handshake got past the magic/PADLEN check (consumed more than seed+header, or succeeded); fingerprint = case structure")
+	c.Rule("obfs2-bytes: real client (Dial) or server (WrapConn) against a scripted peer over the gated wire: input shapes random / shorter than the header / valid key-establishment message then garbage up to 1 MiB / valid prefix cut at every kind of offset / wrong magic (single bit, random) / PADLEN 8193..2^32-1 / maximum padding then garbage / fewer padding bytes than announced / zeros / two handshakes; chunk plans (1..65536, all), wire read caps, real-side padding steered; application writes; ending EOF / read error at an offset / fired handshake deadline / write error at an offset of the real side's output; oracle: no panic, every call returns once the ending is delivered (quiescence; wedge only after 20 s + 60 s), largest handshake read request <= 16392 bytes, injected write errors are returned, deadline armed before the first Read, never moved later while the handshake runs, and cleared after success, fired deadline ends the handshake with an error; non-trivial = the handshake got past the magic/PADLEN check (consumed more than seed+header, or succeeded); fingerprint = case structure")
 	c.Assume("the harness wire delivers every event that could wake the endpoint; quiescence = goroutine finished or parked in the wire's Read")
 	c.Floor("obfs2-bytes-past-magic-check/obfs2-bytes", 0.20)
 	c.Floor("obfs2-bytes-input>=64KiB/obfs2-bytes", 0.10)
